@@ -7,7 +7,7 @@ from kernels_common import HEADER, load
 FILE = 'KCheck.v'
 
 ISIN = {
-    'numbers.Integral': 'is_Integral', 'basestring': 'is_basestring', 'bytes': 'is_bytes',
+    'numbers.Integral': 'is_Integral', 'basestring': 'is_basestring', 'bytes': 'is_bytes', 'complex': 'is_complex',
     'BASESTRING_OR_NUMBER': 'is_basestring_or_Number', 'NUMBER': 'is_Number',
     'int': 'is_int', 'float': 'is_float', '(int, float)': 'is_int_or_float',
 }
